@@ -250,5 +250,6 @@ def check(tier):
     ]
     for name, m in mut:
         ck.add_mutant(name, m, "roundtrip", "harness.C12", "roundtrip_job", dict(cases=cs))
+    ck.validate = ['sbml']
     ck.run()
     return ck.finish(replay=REPLAY)
